@@ -171,15 +171,17 @@ def check_log(res, ss, log, sched, t_reached, completed, tf, t_axis, u0):
     for e in sched:
         if e["u"] != 1:
             continue
-        if e["type"] == "Toggle" and in_range(e["t"]) and decided(e["t"]):
+        if e["type"] == "Toggle" and in_range(e["t"]):
             expected_sets.append(("u", e["model"], e["dev"], e["t"], e))
-        elif e["type"] == "Alter" and in_range(e["t"]) and decided(e["t"]):
+        elif e["type"] == "Alter" and in_range(e["t"]):
             expected_sets.append((e["src"], e["model"], e["dev"], e["t"], e))
     cb_sets = [s for s in log.sets if s["cb"] is not None]
     unmatched = list(cb_sets)
     for src, model, dev, t, e in expected_sets:
         m = [s for s in unmatched if s["src"] == src and s["idx"] == dev and s["t"] == t and owner_matches(ss, s["owner"], model)]
         if not m:
+            if not decided(t):
+                continue     # the run stopped (close to) before this event: nothing can be demanded
             if t == 0.0 and not any(f["t"] == 0.0 for f in log.firings):
                 continue     # already reported above as event_at_t0
             res.violate("event_no_effect", "%s %s at t=%r: no write to %s.%s of %r was observed at that instant" % (
